@@ -90,7 +90,9 @@ func (version Version) MarshalControl() (string, error) {
 
 func (v Version) StringWithoutEpoch() string {
 	result := v.Version
-	if len(v.Revision) > 0 {
+	// An upstream version containing a hyphen is only unambiguous when the
+	// revision separator is spelled out, even if the revision is empty.
+	if len(v.Revision) > 0 || strings.Contains(v.Version, "-") {
 		result += "-" + v.Revision
 	}
 	return result
